@@ -18,8 +18,8 @@ def run(ctx):
     quick = ctx.quick()
     cases, _ = ctx.tlc_emit("Obfs4Handshake", "Obfs4Handshake_MC.cfg", tag="CASE", label="adversary model: all cases", count=True)
     cases = [c for _n, c in cases]
-    if len(cases) != 54:
-        raise Inconclusive("expected 54 cases, got %d" % len(cases))
+    if len(cases) != 60:
+        raise Inconclusive("expected 60 cases, got %d" % len(cases))
     scen = []
     rng = random.Random(ctx.seed * 15485863 + 2)
     for rep in range(1 if quick else 9):
